@@ -291,6 +291,11 @@ fn store_inconsistency(store: &AnnotationStore) -> Option<String> {
                     if cfg.annotation_annotation_map && <AnnotationStore as StoreFor<Annotation>>::get(store, *a2).is_err() { return Some(format!("annotation {} targets removed annotation {:?}", i, a2)); }
                     ("annotation_annotation_map", count(store.annotation_annotation_map.get(*a2), &h), cfg.annotation_annotation_map)
                 }
+                Selector::DataKeySelector(s2, k) if store.get(*s2).ok().and_then(|ds: &AnnotationDataSet| <AnnotationDataSet as StoreFor<DataKey>>::get(ds, *k).ok()).is_none() => return Some(format!("annotation {} targets removed key {:?}", i, (s2, k))),
+                Selector::AnnotationDataSelector(s2, d) if store.get(*s2).ok().and_then(|ds: &AnnotationDataSet| <AnnotationDataSet as StoreFor<AnnotationData>>::get(ds, *d).ok()).is_none() => return Some(format!("annotation {} targets removed data {:?}", i, (s2, d))),
+                Selector::DataSetSelector(s2) if <AnnotationStore as StoreFor<AnnotationDataSet>>::get(store, *s2).is_err() => return Some(format!("annotation {} targets removed dataset {:?}", i, s2)),
+                Selector::ResourceSelector(r) if <AnnotationStore as StoreFor<TextResource>>::get(store, *r).is_err() => return Some(format!("annotation {} targets removed resource {:?}", i, r)),
+                Selector::TextSelector(r, _, _) if <AnnotationStore as StoreFor<TextResource>>::get(store, *r).is_err() => return Some(format!("annotation {} targets text of removed resource {:?}", i, r)),
                 Selector::ResourceSelector(r) => ("resource_annotation_metamap", count(store.resource_annotation_metamap.get(*r), &h), cfg.resource_annotation_metamap),
                 Selector::DataSetSelector(s) => ("dataset_annotation_metamap", count(store.dataset_annotation_metamap.get(*s), &h), cfg.dataset_annotation_metamap),
                 Selector::DataKeySelector(s, k) => ("key_annotation_metamap", count(store.key_annotation_metamap.get(*s, *k), &h), cfg.key_annotation_metamap),
@@ -373,6 +378,9 @@ fn consistency_base(cfg: Config) -> AnnotationStore {
     let d = store.dataset("d0").unwrap().key("k2").unwrap().data().next().unwrap().handle();
     let s = store.dataset("d0").unwrap().handle();
     store.annotate(AnnotationBuilder::new().with_id("A11").with_target(SelectorBuilder::annotationdataselector(s, d)).with_data("d1", "k1", "about data")).unwrap();
+    // an annotation on the annotation about the data item, and one that uses data of both datasets
+    store.annotate(AnnotationBuilder::new().with_id("A12").with_target(SelectorBuilder::annotationselector("A11", None)).with_data("d1", "k1", "about about")).unwrap();
+    store.annotate(AnnotationBuilder::new().with_id("A13").with_target(SelectorBuilder::textselector("r1", Offset::simple(7, 11))).with_data("d0", "k0", "x").with_data("d1", "k0", "x")).unwrap();
     store
 }
 
@@ -390,7 +398,7 @@ fn find_store_consistency() {
         // removal histories only where the cascade can work (it finds dependent annotations through annotation_annotation_map)
         if !mk().annotation_annotation_map() { continue; }
         // remove each annotation in turn (fresh store each time), then two in sequence
-        let ids = ["A0", "A1", "A2", "A3", "A4", "A5", "A6", "A7", "A8", "A9", "A10", "A11"];
+        let ids = ["A0", "A1", "A2", "A3", "A4", "A5", "A6", "A7", "A8", "A9", "A10", "A11", "A12", "A13"];
         for i in 0..ids.len() { for j in 0..=ids.len() {
             let mut store = consistency_base(mk());
             let mut hist = format!("remove {}", ids[i]);
@@ -405,6 +413,7 @@ fn find_store_consistency() {
         // remove data (strict and not), remove a key, remove a resource, remove a dataset
         for (hist, op) in [
             ("remove_data d0/k0=x non-strict", 0), ("remove_data d0/k0=x strict", 1), ("remove_key d0/k1 strict", 2), ("remove_resource r0", 3), ("remove_dataset d1", 4), ("remove_resource r1", 5), ("remove_dataset d0", 6),
+            ("remove_data d0/k2=n (the target of A11) non-strict", 10), ("remove_data d0/k2=n (the target of A11) strict", 11), ("remove_key d0/k2 non-strict", 12),
             ("protect_text(Text)", 7), ("protect_text(Checksum)", 8), ("protect_text(Both) twice, then remove A1", 9),
         ] {
             let mut store = consistency_base(mk());
@@ -415,6 +424,8 @@ fn find_store_consistency() {
                 4 => store.remove_dataset("d1"),
                 5 => store.remove_resource("r1"),
                 6 => store.remove_dataset("d0"),
+                10 | 11 => { let s = store.dataset("d0").unwrap().handle(); let d = store.dataset("d0").unwrap().key("k2").unwrap().data().next().unwrap().handle(); store.remove_data(s, d, op == 11) }
+                12 => { let s = store.dataset("d0").unwrap().handle(); let k = store.dataset("d0").unwrap().key("k2").unwrap().handle(); store.remove_key(s, k, false) }
                 7 => store.protect_text(TextValidationMode::Text),
                 8 => store.protect_text(TextValidationMode::Checksum),
                 _ => store.protect_text(TextValidationMode::Both).and_then(|_| store.protect_text(TextValidationMode::Both)).and_then(|_| { let h = store.annotation("A1").unwrap().handle(); store.remove_annotation(h) }),
